@@ -617,10 +617,7 @@ Section BodyNF.
     unfold b_generated. pose proof (PG_take_up3 (S "GENERATED") (S "ALWAYS") (S "AS") ts) as P.
     destruct (take_up3 (S "GENERATED") (S "ALWAYS") (S "AS") ts) as [b t1]. pg_unfold_in P. destruct b; cbn [negb]; [|exact I].
     destruct (P eq_refl) as [_ P2].
-    assert (S0 : SF (let* (inner, t2) := pop_children t1 in let* (e, i1) := r rec d F_compute inner in let* _ := close i1 in let* (m, t3) := pop_src t2 in
-                     let mode := match assoc_str m generate_column_save_mode_hash with Some n => venum "EnumGenerateColumnSaveMode" n | None => VNone end in
-                     Ok (node "ASTGeneratedColumn" [("expression", e); ("save_mode", mode)], t3)) t1) by ssweep.
-    match goal with |- match ?x with _ => _ end => match type of S0 with SF ?y _ => change y with x in S0 end end.
+    match goal with |- match ?x with _ => _ end => assert (S0 : SF x t1) by ssweep end.
     match goal with |- match ?x with _ => _ end => destruct x as [[v t5]|]; [|exact I] end.
     sf_unfold_in S0. apply sfx_both in S0. destruct v; try exact I; lia.
   Qed.
